@@ -31,9 +31,47 @@ def tree_hash(path: Path):
     return h.hexdigest(), len(files)
 
 
+def canonical_ode(path: Path):
+    """order-insensitive digest of the ydot / Jacobian statements (exact polynomials)"""
+    sys.path.insert(0, str(Path(__file__).resolve().parent.parent))
+    from harness import cparse
+    from harness.poly import poly_of_text
+    out = {}
+    for f in ("src/naunet_fex.cpp", "src/naunet_jac.cpp", "src/naunet_ode.cpp"):
+        p = path / f
+        if not p.exists():
+            continue
+        stm = cparse.assignments(p.read_text(), r"(?:ydot\[[^\]]*\]|IJth\([^)]*\)|data\[\d+\]|j\(\s*\d+\s*,\s*\d+\s*\))")
+        try:
+            out[f] = hashlib.sha256(json.dumps(sorted((l, poly_of_text(r).canon()) for l, r, _ in stm)).encode()).hexdigest()[:16]
+        except Exception as e:
+            out[f] = "unparsed:" + type(e).__name__
+    return out
+
+
+def file_hashes(path: Path):
+    out = {}
+    for sub in ("include", "src", "python"):
+        base = path / sub
+        if base.exists():
+            for p in sorted(q for q in base.rglob("*") if q.is_file()):
+                out[str(p.relative_to(path))] = hashlib.sha256(p.read_bytes()).hexdigest()[:16]
+    return out
+
+
 def build(desc, workdir: Path):
     from naunet.network import Network
     from naunet.species import Species
+    from naunet import chemistrydata
+    if "replacement" in desc:      # what the render command does before building the network
+        Species._replacement = dict(desc["replacement"])
+        Species.set_known_elements(list(desc["elements"]))
+        Species.set_known_pseudoelements(list(desc["pseudo"]))
+        kw = desc.get("kwargs") or {}
+        chemistrydata.user_binding_energy.clear()
+        chemistrydata.user_photon_yield.clear()
+        chemistrydata.update_binding_energy({Species(k, **kw).name: v for k, v in (desc.get("binding") or {}).items()})
+        chemistrydata.update_photon_yield({Species(k, **kw).name: v for k, v in (desc.get("yield") or {}).items()})
     files, fmts = [], []
     for i, (content, fmt) in enumerate(desc["files"]):
         f = workdir / f"net{i}.{fmt}"
@@ -43,7 +81,10 @@ def build(desc, workdir: Path):
     return Network(filelist=files, fileformats=fmts, elements=desc["elements"], pseudo_elements=desc["pseudo"],
                    allowed_species=desc.get("allowed") or None, required_species=desc.get("required") or None,
                    species_kwargs=desc.get("kwargs") or None, cooling=desc.get("cooling") or None,
-                   grain_model=desc.get("grain_model", ""), rate_modifier=desc.get("rate_modifier") or None)
+                   grain_model=desc.get("grain_model", ""),
+                   rate_modifier={int(k): v for k, v in (desc.get("rate_modifier") or {}).items()} or None,
+                   ode_modifier=desc.get("ode_modifier") or None, heating=desc.get("heating") or None,
+                   shielding=desc.get("shielding") or None)
 
 
 def main():
@@ -77,8 +118,31 @@ def main():
                 d.mkdir()
                 try:
                     TemplateLoader(solver, method, device).render("proj", nets[step["id"]], path=d)
-                    out.append({"tag": step.get("tag"), "hash": tree_hash(d)[0], "files": tree_hash(d)[1]})
+                    out.append({"tag": step.get("tag"), "hash": tree_hash(d)[0], "files": tree_hash(d)[1], "per_file": file_hashes(d), "canon": canonical_ode(d)})
                 except Exception as e:
+                    out.append({"tag": step.get("tag"), "error": f"{type(e).__name__}: {e}"[:300]})
+            elif op == "cli_init":
+                from cleo.testers.command_tester import CommandTester
+                from naunet.console.application import Application
+                cwd = os.getcwd()
+                os.chdir(step["dir"])
+                try:
+                    t = CommandTester(Application().find("init"))
+                    t.execute(step["options"])
+                    out.append({"tag": step.get("tag"), "hash": tree_hash(Path(step["dir"]))[0], "per_file": file_hashes(Path(step["dir"])),
+                                "toml": (Path(step["dir"]) / "naunet_config.toml").read_text()})
+                except BaseException as e:
+                    out.append({"tag": step.get("tag"), "error": f"{type(e).__name__}: {e}"[:300]})
+                finally:
+                    os.chdir(cwd)
+            elif op == "export":
+                try:
+                    d = Path(step["dir"])
+                    nets[step["id"]].export(d.name, solver=step["backend"][0], method=step["backend"][1], device=step["backend"][2],
+                                            prefix=str(d.parent), overwrite=True)
+                    out.append({"tag": step.get("tag"), "hash": tree_hash(d)[0], "per_file": file_hashes(d),
+                                "toml": (d / "naunet_config.toml").read_text()})
+                except BaseException as e:
                     out.append({"tag": step.get("tag"), "error": f"{type(e).__name__}: {e}"[:300]})
             elif op == "cli_render":
                 # a project directory prepared by the parent: naunet_config.toml + network files
@@ -89,7 +153,8 @@ def main():
                 try:
                     t = CommandTester(Application().find("render"))
                     t.execute("--force")
-                    out.append({"tag": step.get("tag"), "hash": tree_hash(Path(step["dir"]))[0]})
+                    out.append({"tag": step.get("tag"), "hash": tree_hash(Path(step["dir"]))[0], "per_file": file_hashes(Path(step["dir"])),
+                                "canon": canonical_ode(Path(step["dir"]))})
                 except Exception as e:
                     out.append({"tag": step.get("tag"), "error": f"{type(e).__name__}: {e}"[:300]})
                 finally:
